@@ -39,7 +39,7 @@ fi
 det=MISSED
 echo "$out" | grep -q "exit=1" && det="DETECTED($tier)"
 echo "$out" | grep -q "exit=2" && det="INFRA-ERROR"
-sig=$(echo "$out" | grep -o 'sig=[^ ]*' | head -3 | tr '\n' ' ')
+sig=$(echo "$out" | grep "^VIOLATION" | grep -o 'sig=[^ ]*' | head -3 | tr '\n' ' ')
 res "suite=$suite demo_with_change_fails=$withfail demo_without_passes=$without flags=[$flags] check=$det $sig"
 if [ "$withfail" = yes ] && [ "$without" = pass ]; then
   d=/verif/seeded/$ID-$M
